@@ -86,6 +86,27 @@ def kalman_tables(kern, X):
     return np.asarray(jax.vmap(kern.transition_matrix)(Xp, X)), np.asarray(jax.vmap(kern.observation_model)(X))
 
 
+def float32_models(rng):
+    """All-float32 models (kernel parameters, coordinates, noise, mean and data in single precision; the harness runs with x64 enabled):
+    yields (name, make_kernel(dtype), x, diag, mean, y, xt, family) with the numbers as float64 numpy values for the oracle."""
+    import jax.numpy as jnp
+    from tinygp import kernels
+    from tinygp.kernels import quasisep as qs
+    out = []
+    for n in (1, 4, 9):
+        x = np.sort(rng.uniform(0, 5, size=n)).astype(np.float32).astype(np.float64)
+        if n > 3:
+            x[2] = x[1]
+        y = rng.normal(size=n).astype(np.float32).astype(np.float64)
+        xt = np.sort(rng.uniform(-0.5, 5.5, size=3)).astype(np.float32).astype(np.float64)
+        out.append(("qs.Matern32+0.5*qs.Exp", lambda dt: qs.Matern32(jnp.asarray(1.25, dt), jnp.asarray(0.75, dt)) + jnp.asarray(0.5, dt) * qs.Exp(jnp.asarray(2.0, dt)),
+                    lambda a, b: 0.75 ** 2 * (1 + np.sqrt(3) * np.abs(a - b) / 1.25) * np.exp(-np.sqrt(3) * np.abs(a - b) / 1.25) + 0.5 * np.exp(-np.abs(a - b) / 2.0),
+                    x, 0.25, 0.5, y, xt, "quasisep"))
+        out.append(("kernels.ExpSquared", lambda dt: jnp.asarray(1.5, dt) * kernels.ExpSquared(jnp.asarray(1.25, dt)),
+                    lambda a, b: 1.5 * np.exp(-0.5 * (a - b) ** 2 / 1.25 ** 2), x, 0.25, 0.5, y, xt, "dense"))
+    return out
+
+
 def structured_kernels():
     """Wrappers over structured (time, label) coordinates.
     Multiband: amplitude per band (parallel observation vectors).  Latent: a different linear combination of the state per label
